@@ -185,31 +185,6 @@ Definition bed_of (b : Bed.bed) : imp_bed_BED :=
     (let '(r, g, bl) := Bed.b_rgb b in [r; g; bl])
     (Bed.b_block_count b) (Bed.b_block_sizes b) (Bed.b_block_starts b).
 
-Definition blocks_body : Z * Z -> list (list N) -> res (list (list N)) (list (list N) * bool) :=
-  fun p out__ => let i := fst p in let x := snd p in
-  let txt := [37%N; 118%N] in after (if (Z.ltb (0)%Z i) then let txt := [44%N; 37%N; 118%N] in Next txt else Next txt) (fun txt => (let out__ := out__ ++ [go_fmt1 txt (itoa x)] in let t__13 := (0%Z, false) in let err_10 := (snd t__13) in (if err_10 then Ret (out__, err_10) else Next out__))).
-
-Lemma blocks_loop_rest l : forall j out, 1 <= j ->
-  go_iter blocks_body (combine (zseq j (length l)) l) out = Next (out ++ Bed.list_calls_rest l).
-Proof.
-  induction l as [|x r IH]; intros j out Hj.
-  - cbn. rewrite app_nil_r. reflexivity.
-  - cbn [length]. rewrite zseq_cons. cbn [combine go_iter Bed.list_calls_rest].
-    unfold blocks_body at 1. cbn [fst snd]. cbv zeta.
-    replace (0 <? j) with true by lia. cbn [after go_fmt1 snd]. rewrite app_nil_r.
-    rewrite IH by lia. rewrite <- app_assoc. reflexivity.
-Qed.
-
-Lemma blocks_loop l out :
-  go_range l (fun i x out__ => blocks_body (i, x) out__) out = Next (out ++ Bed.list_calls l).
-Proof.
-  unfold go_range, indexed. destruct l as [|x r]; [cbn; rewrite app_nil_r; reflexivity|].
-  cbn [length]. rewrite zseq_cons. cbn [combine go_iter fst snd Bed.list_calls].
-  unfold blocks_body at 1. cbn [fst snd]. cbv zeta. cbn [Z.ltb Z.compare after go_fmt1 snd]. rewrite app_nil_r.
-  change (go_iter _ ?l ?s) with (go_iter blocks_body l s).
-  rewrite blocks_loop_rest by lia. rewrite <- app_assoc. reflexivity.
-Qed.
-
 Lemma when_next {R} (c : bool) (out x : list (list N)) :
   (if c then Next (R := R) (out ++ x) else Next out) = Next (out ++ Bed.when c x).
 Proof. destruct c; cbn [Bed.when]; [reflexivity|rewrite app_nil_r; reflexivity]. Qed.
@@ -238,7 +213,7 @@ Qed.
 
 Theorem imp_BED_Write b :
   imp_bed_BED_Write (bed_of b)
-  = match Bed.write_calls b with Ok cs => Ret (cs, false) | _ => Ret ([], true) end.
+  = match Bed.write_calls b with Ok cs => Ret (cs, 0) | _ => Ret ([], 2) end.
 Proof.
   unfold imp_bed_BED_Write, Bed.write_calls, bed_of.
   cbn [imp_bed_BED_N imp_bed_BED_Chrom imp_bed_BED_ChromStart imp_bed_BED_ChromEnd imp_bed_BED_Name imp_bed_BED_Score
@@ -247,16 +222,16 @@ Proof.
   cbv zeta. replace (Bed.b_n b >? 12) with (12 <? Bed.b_n b) by lia.
   destruct ((Bed.b_n b <? 3) || (12 <? Bed.b_n b)); cbn [after]; [reflexivity|].
   destruct (Bed.b_rgb b) as [[r g] bl].
-  cbn [snd after].
+  cbn [snd after Z.eqb negb].
   rewrite !Z.gtb_ltb.
-  assert (I0 : forall S' (k : N -> res S' (list (list N) * bool)), go_index [r; g; bl] 0 k = k r) by reflexivity.
-  assert (I1 : forall S' (k : N -> res S' (list (list N) * bool)), go_index [r; g; bl] 1 k = k g) by reflexivity.
-  assert (I2 : forall S' (k : N -> res S' (list (list N) * bool)), go_index [r; g; bl] 2 k = k bl) by reflexivity.
+  assert (I0 : forall S' (k : N -> res S' (list (list N) * Z)), go_index [r; g; bl] 0 k = k r) by reflexivity.
+  assert (I1 : forall S' (k : N -> res S' (list (list N) * Z)), go_index [r; g; bl] 1 k = k g) by reflexivity.
+  assert (I2 : forall S' (k : N -> res S' (list (list N) * Z)), go_index [r; g; bl] 2 k = k bl) by reflexivity.
   repeat (first
     [ rewrite I0 | rewrite I1 | rewrite I2
-    | rewrite (when_next (R := list (list N) * bool))
-    | rewrite (blocks_loop_gen (R := list (list N) * bool))
-    | rewrite <- app_assoc ]; cbn [after]).
+    | rewrite (when_next (R := list (list N) * Z))
+    | rewrite (blocks_loop_gen (R := list (list N) * Z))
+    | rewrite <- app_assoc ]; cbn [after snd Z.eqb negb]).
   unfold Bed.rgb_text, Bed.fmt_byte, Bed.COMMA, TAB, LF.
   repeat (rewrite <- ?app_assoc; cbn [app]).
   reflexivity.
